@@ -183,7 +183,7 @@ Definition phrase_lists (toks : list N) (ts : list (Z * N)) : list (list N) :=
 Fixpoint insert_by {A} (key : A -> nat) (x : A) (l : list A) : list A :=
   match l with
   | [] => [x]
-  | y :: r => if Nat.ltb (key x) (key y) then x :: l else y :: insert_by key x r
+  | y :: r => if Nat.leb (key x) (key y) then x :: l else y :: insert_by key x r   (* <= : fold_right inserts the later elements first, so ties keep their order *)
   end.
 Definition sort_by {A} (key : A -> nat) (l : list A) : list A := fold_right (insert_by key) [] l.
 
